@@ -24,7 +24,9 @@ def t(case):
 t0 = time.time()
 try:
     t()
-except AssertionError:
+except BaseException as _e:
+    print("EXC", type(_e).__name__)
+    if last[0] is None: raise
     case, probs = last[0]
     json.dump({'property': mod.PROP, 'case': case}, open('/verif/work/last_%s.json' % modname, 'w'))
     print(json.dumps(case)[:4000])
